@@ -6,13 +6,11 @@ CONSTANTS
   Limits = {1, 2, 3}
   DefIds = {1}
   OmitVals = {FALSE}
-  Modes = {"fresh", "lctx", "gen", "proc"}
+  Modes = {"fresh", "lctx", "gen"}
   ResetLimiter = FALSE
   IdentityDepKey = TRUE
   VolatileUniq = TRUE
   FreshModule = TRUE
 VIEW View
-INVARIANT SibDigest
-INVARIANT LimitRespected
-INVARIANT OwnLineKept
+INVARIANT EmitBad
 CHECK_DEADLOCK FALSE
